@@ -40,9 +40,10 @@ CODE = isa.CODE
 SVC, USR = machine.MODES["svc"], machine.MODES["usr"]
 MODES = (SVC, USR)
 ADDRS = {
-    A32: [0x0, 0x4, 0x10800, 0xFFFFFFF8, 0xFFFFFFFC],
-    T16: [0x0, 0x2, 0x10800, 0x10802, 0xFFFFFFFC, 0xFFFFFFFE],
-    T32: [0x0, 0x2, 0x10800, 0x10802, 0xFFFFFFFA, 0xFFFFFFFC],
+    # 0xFFFFFFC0: short FORWARD offsets (CBZ, B<c> T1) cross 2^32 from here (from 0xFFFFFFFC the PC value read is already 0)
+    A32: [0x0, 0x4, 0x10800, 0xFFFFFFC0, 0xFFFFFFF8, 0xFFFFFFFC],
+    T16: [0x0, 0x2, 0x10800, 0x10802, 0xFFFFFFC0, 0xFFFFFFFC, 0xFFFFFFFE],
+    T32: [0x0, 0x2, 0x10800, 0x10802, 0xFFFFFFC0, 0xFFFFFFFA, 0xFFFFFFFC],
 }
 TAGS = {n: 0x0BAD0000 + 0x111 * n for n in range(13)}
 TAGS[13] = 0x10400
